@@ -166,6 +166,11 @@ func (e *Engine) verifyFunc(key string) (*VC, error) {
 	c := e.contracts.Funcs[key]
 	vc := newVC(e, key, c)
 	c.Used = true
+	if c.Functional {
+		for _, why := range e.notFunctional(fn) {
+			vc.errorf("contract says functional, but the body %s", why)
+		}
+	}
 	vc.pure = c.Pure
 	fr := vc.newFrame(fn, "", 0, []string{key})
 	entry := &state{reach: "true", heap: Heap{}}
@@ -402,5 +407,52 @@ func (e *Engine) globalWrites(pkg *ssa.Package) []string {
 	}
 	sort.Strings(out)
 	e.gwCache[pkg] = out
+	return out
+}
+
+
+// notFunctional: reasons why fn's result may depend on more than its arguments.
+func (e *Engine) notFunctional(fn *ssa.Function) []string {
+	var out []string
+	for _, b := range fn.Blocks {
+		for _, ins := range b.Instrs {
+			switch x := ins.(type) {
+			case *ssa.UnOp:
+				if x.Op == token.MUL {
+					if _, isAlloc := x.X.(*ssa.Alloc); !isAlloc {
+						out = append(out, "loads from memory ("+x.String()+")")
+					}
+				}
+			case *ssa.Lookup:
+				if _, isMap := x.X.Type().Underlying().(*types.Map); isMap {
+					out = append(out, "reads a map")
+				}
+			case *ssa.MapUpdate, *ssa.Range, *ssa.Go, *ssa.Defer:
+				out = append(out, "uses "+x.String())
+			case ssa.CallInstruction:
+				cc := x.Common()
+				if cc.IsInvoke() {
+					out = append(out, "calls an interface method")
+					continue
+				}
+				if _, ok := cc.Value.(*ssa.Builtin); ok {
+					continue
+				}
+				callee := cc.StaticCallee()
+				if callee == nil {
+					out = append(out, "makes a dynamic call")
+					continue
+				}
+				k := funcKey(callee)
+				if e.isInterpreted(k) || callee.Blocks == nil {
+					continue
+				}
+				if c := e.contractFor(k); c != nil && c.Functional {
+					continue
+				}
+				out = append(out, "calls "+k+", which is not functional")
+			}
+		}
+	}
 	return out
 }
